@@ -121,13 +121,19 @@ SumPts(m, c, F) == [k \in 1..m.dim |-> SumOver(F, LAMBDA a : P(m, c, a)[k])]
 Scaled(p, n) == [k \in DOMAIN p |-> n * p[k]]
 ExpectedInserted(r, m, c) ==     \* set of <<multiplier, multiplier * centroid>>
   (IF r.args.edges THEN {<<2, SumPts(m, c, F)>> : F \in EdgeTable(m.type)} ELSE {})
-  \cup (IF r.args.faces THEN {<<Cardinality(F), SumPts(m, c, F)>> : F \in (IF Base(m.type) = "quad" THEN {1..4} ELSE FaceTable(m.type))} ELSE {})
-  \cup (IF r.args.volumes THEN {<<8, SumPts(m, c, 1..8)>>} ELSE {})
+  \cup (IF r.args.faces THEN {<<Cardinality(F), SumPts(m, c, F)>> :
+                                 F \in (IF Base(m.type) \in {"quad", "triangle"} THEN {1..NCorner(m.type)} ELSE FaceTable(m.type))} ELSE {})
+  \cup (IF r.args.volumes THEN {<<NCorner(m.type), SumPts(m, c, 1..NCorner(m.type))>>} ELSE {})
 MidpointsAreCentroids(r) ==
   LET m == r.child  nc == NCorner(m.type) IN
   \A c \in Cells(m) :
      /\ Len(m.cells[c]) = nc + Cardinality(ExpectedInserted(r, m, c))
      /\ \A e \in ExpectedInserted(r, m, c) : \E a \in (nc + 1)..Len(m.cells[c]) : Scaled(P(m, c, a), e[1]) = e[2]
+\* order-zero conversion: one point per cell, the centroid of its corners (the whole record is logged on a finer lattice on which
+\* the centroids are integers)
+CellCentroids(r) == LET a == r.parents[1]  b == r.child IN
+                    /\ Len(b.cells) = Len(a.cells)
+                    /\ \A c \in Cells(a) : Len(b.cells[c]) = 1 /\ Scaled(b.pts[b.cells[c][1] + 1], NCorner(a.type)) = SumPts(a, c, 1..NCorner(a.type))
 \* disconnect: every cell owns its points
 CellsOwnPoints(r) == LET m == r.child IN
                      /\ Len(m.pts) = SumOver(Cells(m), LAMBDA c : Len(m.cells[c]))
@@ -161,6 +167,7 @@ Clauses(r) ==
     [] r.op = "disconnect" -> {"CornersUnmoved", "CellsOwnPoints", "VolumePreserved"} \cup If(GO(r), {"PositiveOrientation"})
     [] r.op = "merge" -> {"CornersUnmoved", "NoDuplicatePoints", "VolumePreserved"} \cup If(GO(r), {"PositiveOrientation"})
                          \cup If(GU(r), {"NoUnusedPoints"})
+    [] r.op = "centroids" -> {"CellCentroids"}
     [] r.op = "offlattice" -> {"OnLattice"}     \* a lattice operation produced non-lattice coordinates
 Holds(c, r) ==
   CASE c = "PositiveOrientation" -> PositiveOrientation(r) [] c = "NoUnusedPoints" -> NoUnusedPoints(r)
@@ -169,7 +176,7 @@ Holds(c, r) ==
     [] c = "VolumePreserved" -> VolumePreserved(r) [] c = "SameMesh" -> SameMesh(r) [] c = "FlipInverts" -> FlipInverts(r)
     [] c = "ExpandVolume" -> ExpandVolume(r) [] c = "RevolveVolume" -> RevolveVolume(r)
     [] c = "CornersUnmoved" -> CornersUnmoved(r) [] c = "MidpointsAreCentroids" -> MidpointsAreCentroids(r)
-    [] c = "CellsOwnPoints" -> CellsOwnPoints(r)
+    [] c = "CellsOwnPoints" -> CellsOwnPoints(r) [] c = "CellCentroids" -> CellCentroids(r)
     [] c = "OnLattice" -> FALSE
 Applicable(r) == Clauses(r)
 Failing(r) == {c \in Clauses(r) : ~Holds(c, r)}
